@@ -17,6 +17,99 @@ fn cost(from: &Option<VetVersion>, to: &VetVersion) -> u64 {
     (t - f).unsigned_abs()
 }
 
+/// versions from which `target` can be reached along edges carrying criterion `c` (incl. itself)
+fn reaches(edges: &[core::SpecEdge], c: usize, target: &VetVersion) -> BTreeSet<VetVersion> {
+    let mut seen: BTreeSet<VetVersion> = BTreeSet::new();
+    seen.insert(target.clone());
+    loop {
+        let mut grew = false;
+        for e in edges {
+            if e.crit & (1 << c) != 0 && seen.contains(&e.dst) {
+                if let Some(s) = &e.src {
+                    if seen.insert(s.clone()) {
+                        grew = true;
+                    }
+                }
+            }
+        }
+        if !grew {
+            return seen;
+        }
+    }
+}
+
+/// C17, last sentence: the criteria `certify` pre-selects for a delta (`guess_audit_criteria`, the
+/// function behind the prompt) are ones for which that delta connects an audited version to a
+/// needed one — in the store as it is, or in the store without its removable exemptions (the
+/// `suggest` view the function falls back to).  Recomputed from the records.
+fn check_guess(r: &mut Report, md: &Metadata, store: &Store, case: &str) {
+    let Some(spec) = core::Spec::new(&store.audits.criteria) else { return };
+    let sg = core::SpecGraph::new(md);
+    let Some(demand) = sg.demand(&store.config.policy, &spec) else { return };
+    let cfg = mock_cfg(md);
+    let views = [store.clone_for_suggest(false), store.clone_for_suggest(true)];
+    let mut names: Vec<String> = (0..sg.ids.len()).filter(|p| sg.third_party(&store.config.policy, *p)).map(|p| sg.name[p].clone()).collect();
+    names.sort();
+    names.dedup();
+    for name in names.iter().take(3) {
+        let Some(e0) = core::spec_edges(&views[0], &spec, name) else { continue };
+        let Some(e1) = core::spec_edges(&views[1], &spec, name) else { continue };
+        let mut vs: Vec<VetVersion> = (0..sg.ids.len()).filter(|p| sg.name[*p] == *name).map(|p| sg.ver[p].clone()).collect();
+        for e in &e0 {
+            vs.push(e.dst.clone());
+            if let Some(s) = &e.src {
+                vs.push(s.clone());
+            }
+        }
+        vs.push(VetVersion::parse("9.9.9").unwrap());
+        vs.sort();
+        vs.dedup();
+        let mut pairs: Vec<(Option<VetVersion>, VetVersion)> = Vec::new();
+        for t in &vs {
+            pairs.push((None, t.clone()));
+            for f in &vs {
+                if f != t {
+                    pairs.push((Some(f.clone()), t.clone()));
+                }
+            }
+        }
+        // a deterministic handful
+        let h = hash_str(case) as usize;
+        let k = pairs.len();
+        for j in 0..k.min(6) {
+            let (from, to) = pairs[(h.wrapping_add(j.wrapping_mul(7919))) % k].clone();
+            let got = match guarded(|| crate::guess_audit_criteria(&cfg, store, name, from.as_ref(), &to)) {
+                Ok(g) => g,
+                Err(e) => {
+                    r.fail("oracle", "C17/guess-panics", e, case);
+                    continue;
+                }
+            };
+            r.oracle_checked += 1;
+            r.count(if got.is_empty() { "guess:none" } else { "guess:some" });
+            for cname in &got {
+                let Some(c) = spec.crits.iter().position(|x| x == cname) else { continue };
+                // some view in which `from` is certified for c and `to` leads to an in-graph
+                // version that needs c and lacks it
+                let connects = [&e0, &e1].iter().any(|edges| {
+                    let from_ok = match &from {
+                        None => true,
+                        Some(f) => core::spec_reach(edges, c, &|_| true).contains(&Some(f.clone())),
+                    };
+                    from_ok && (0..sg.ids.len()).any(|p| {
+                        sg.name[p] == *name && sg.third_party(&store.config.policy, p) && demand[p] & (1 << c) != 0
+                            && !core::spec_reach(edges, c, &|_| true).contains(&Some(sg.ver[p].clone()))
+                            && reaches(edges, c, &sg.ver[p]).contains(&to)
+                    })
+                });
+                if !connects && r.prop == "C17" {
+                    r.fail("oracle", "C17/certify-preselects-unconnected-criteria", format!("certify pre-selects `{cname}` for {name} {} -> {to}, but that delta does not connect a version certified for it to an in-graph version that needs it", from.as_ref().map(|f| f.to_string()).unwrap_or_else(|| "(full)".into())), case);
+                }
+            }
+        }
+    }
+}
+
 pub fn check_world(r: &mut Report, d: &mut Driver, w: &gen::GWorld, tag: &str) {
     let store = w.store();
     let md = &w.md;
@@ -39,6 +132,7 @@ pub fn check_world(r: &mut Report, d: &mut Driver, w: &gen::GWorld, tag: &str) {
     };
     let (it, world_line) = wire::enc_world(md, &store);
     let case = format!("{tag}\n{world_line}");
+    check_guess(r, md, &store, &case);
     let mapper = CriteriaMapper::new(&store.audits.criteria);
     r.count(&format!("suggestions:{}", sug.suggestions.len().min(6)));
     if !sug.suggestions.is_empty() {
